@@ -1,7 +1,46 @@
-"""C11 Forbidden data never gets in: Engine A entry-point harness (C11a) and, when
-available, the Engine B validator kernels (vf/kernel_smt.py)."""
+"""C11 Forbidden data never gets in: Engine A entry-point harness (C11a) and the Engine B
+validator kernels (C11b: the validator functions translated to z3, all key strings, value
+trees up to the stated width/depth)."""
+import time
+
 from harness.C11a import *  # noqa: F401,F403
 from harness import C11a as _a
 
 PID = "C11"
 reject = _a.reject
+
+
+def main(tier, seed):
+    import harness.C11 as me
+    from harness import C11b
+    from vf import run as vrun
+
+    t0 = time.time()
+    b = C11b.engine_b(tier, seed)
+    res = vrun.verify_A(me, tier, seed)
+    seen = set()
+    for v in b["violations"]:
+        res["traces_validated"] += 1
+        rec = {"property": PID, "harness": "harness.C11b.engine_b", "engine": "B", "counterexample": {k: v[k] for k in v if k != "replay"}, "replay": v["replay"]}
+        if v["replay"]["outcome"] == "fail":
+            key = (v.get("validator") or v.get("class"), v["obligation"])
+            if key not in seen:
+                seen.add(key)
+                res["violations"].append(rec)
+        else:
+            res["mismatch"].append({"what": "Engine B counterexample does not reproduce on the real validators", **rec})
+    res["traces_validated"] += b["validated"]
+    for d in b["mismatch"]:
+        res["harness_errors"].append("translator validation: " + d)
+    if b["obligations"] == 0:
+        res["harness_errors"].append("Engine B produced no obligation")
+    for i in b["inconclusive"]:
+        res["inconclusive"].append("engine B: " + i)
+    st = b["stats"]
+    res["queries"] += st.queries
+    res["solver_s"] += st.solver_s
+    res["wall_s"] = round(time.time() - t0, 2)
+    extra = {"engine_B": {"bounds": b["bounds"], "value_tree_nodes": b["nodes"], "obligations": b["obligations"], "discharged": b["discharged"], "kernel_paths": st.paths,
+                          "solver_queries": st.queries, "solver_seconds": round(st.solver_s, 2), "solver_unknown": st.unknown, "translator_validation_runs": b["validated"],
+                          "functions_translated": sorted(b["functions"]), "samples": b["samples"], "violations": [{k: v[k] for k in v} for v in b["violations"][:8]]}}
+    return vrun.finish(res, me, extra_cov=extra)
